@@ -24,7 +24,7 @@ for pid in ids:
         "engine": "rocq-proof+correspondence",
         "level_claimed": {"category": "proof", "text": c["level_text"], "design_ref": "DESIGN.md section 6, " + pid},
         "level_note": c["level_note"],
-        "technique": c.get("technique", "machine-checked proof in Rocq (Coq 8.16.1) over an executable Gallina model, tied to the code by a differential correspondence check (extracted OCaml model vs. real Go code) and a generated-constants translator"),
+        "technique": c.get("technique", "machine-checked proof in Rocq (Coq 8.16.1) over executable Gallina models; the models are tied to /repo on every run by (1) translators (gen/) that regenerate constants and tables, lock facts and per-function event sequences from the Go source - the proofs, the lockset compliance and the models' structural parameters are re-checked against them - and (2) a correspondence check that runs the models extracted to OCaml and the real Go code on the same inputs, histories and recorded schedule-point traces"),
     })
 na = []
 for pid in ids:
@@ -39,7 +39,7 @@ m = {
               "source_commits": hooks_commits, "add_only": True},
     "engines": [{"name": "rocq-proof+correspondence", "path": "check",
                  "serves_properties": [c["property_id"] for c in checks],
-                 "kind_free_text": "Coq 8.16.1 theorems over hand-written executable Gallina models (coq/theories), re-checked on every run against constants/tables regenerated from /repo by gen/; models extracted to OCaml (ocaml/) and run against the real Go code driven by harness/ on the same inputs/histories; property oracles defined in Coq decide the implementation's observations and yield replays"}],
+                 "kind_free_text": "Coq 8.16.1 theorems over hand-written executable Gallina models (coq/theories), re-checked on every run against constants/tables, lock facts and per-function event sequences regenerated from /repo by gen/ (Gen/Consts.v, Gen/LockFacts.v, Gen/Shape.v); models extracted to OCaml (ocaml/) and run against the real Go code driven by harness/ on the same inputs/histories; property oracles defined in Coq decide the implementation's observations and yield replays"}],
     "checks": checks,
     "not_applicable": na,
     "notes": "All checks rebuild from /repo's working tree (harness with -tags verif; Gen/*.v regenerated). See DESIGN.md for the trusted base and per-property labels; known_findings.txt lists recorded findings and fix: commits.",
